@@ -24,9 +24,10 @@ META = {
     "note": "Shared/Swiss variants are covered by monitors over real threads only (no model, no schedule enumeration): "
             "per-thread exclusive resources + recording thread-safe allocators, disjointness/ownership/contents/release "
             "exactness checked after joins.  Contents stability is proved as 'every store of the resource is inside a "
-            "bookkeeping array, and those are disjoint from live blocks' (the model has no byte memory).  Move: the "
-            "theorems cover move-assignment into a prepared target; move-construction does not carry _upstream over and "
-            "is stated as c06_move_ctor_refuted (see KNOWN_FINDINGS).  Preconditions in the statements: page size 2^k "
+            "bookkeeping array, and those are disjoint from live blocks' (the model has no byte memory).  Move: both "
+            "move-assignment into a prepared target and move-construction are operations of the model and of every "
+            "theorem; that operator=(&&) swaps _upstream is read off the source by the translator "
+            "(Gen.move_swaps_upstream; defect fixed in /repo 2947382, see KNOWN_FINDINGS 'fixed:').  Preconditions in the statements: page size 2^k "
             ">= 128, pages page-size aligned, alignment a power of two <= 2^32, sizes and addresses below 2^62 (no "
             "address wrap), oracle regions fresh.  Trusted: Coq kernel, translator, extraction + OCaml driver, C++ "
             "harness (recording allocators, -fno-access-control walk of the intrusive arrays).",
@@ -274,8 +275,6 @@ def main(argv):
         for k, (sig, text) in MON_TEXT.items():
             if mons.get(k) == "0":
                 d = parts.get(k[4:], detail)
-                if sig == "oversize-not-once" and "default new_delete_resource" in d and "K" in rep.get("ops", []):
-                    sig = "move-ctor-drops-upstream"
                 chk.violate(sig, "%s%s: %s" % (what_prefix, text, d), rep)
 
     impl_out = {}
